@@ -380,9 +380,9 @@ def run(ctx):
     ctx.add_sample("C16.has_finite_simples", (classics[5], True))
     # bases with an element of length 6, in particular one that is NOT a pin permutation (every permutation of
     # length <= 5 is one; 56 of the 720 of length 6 are not): no pin word exists for that element
-    with_pins = set(_pw().pinword_to_perm_mapping(6).values())
+    from specs import pins as _pins
     p6 = D.perms(6)
-    nonpin6 = [p for p in p6 if p not in with_pins]
+    nonpin6 = [Perm(t) for t in _pins.nonpin_perms(6)]  # by the spec's own enumerator / decoder, not by the library
     six = []
     for j in range(18 if quick else 120):
         big = rng.choice(nonpin6) if j % 3 else rng.choice(p6)
